@@ -187,6 +187,9 @@ class Mode:
         self.sample = dict(mode="implicit", **{k: v for k, v in ispec.items()})
 
 
+CONTAINERS = []  # masked arrays returned by multi-entry requests since the last drain
+
+
 def _request(outs, req):
     """req = ('el', s, i, j, n) | ('orders', s, i, j, k) slice over the first parameter | ('blocks', s, n) all blocks at order n
     | ('list', s, i, j, [k1, k2])"""
@@ -197,14 +200,17 @@ def _request(outs, req):
     if kind == "orders":
         _, s, i, j, k, rest = req
         arr = outs[s][(i, j, slice(None, k + 1)) + rest]
+        CONTAINERS.append(arr)
         return [((s, i, j, (m,) + rest), arr[m]) for m in range(k + 1)]
     if kind == "list":
         _, s, i, j, ks, rest = req
         arr = outs[s][(i, j, list(ks)) + rest]
+        CONTAINERS.append(arr)
         return [((s, i, j, (m,) + rest), arr[q]) for q, m in enumerate(ks)]
     if kind == "blocks":
         _, s, n, nb = req
         arr = outs[s][(slice(None), slice(None)) + n]
+        CONTAINERS.append(arr)
         return [((s, i, j, n), arr[i, j]) for i in range(nb) for j in range(nb)]
     raise ValueError(kind)
 
@@ -262,12 +268,23 @@ def run_case(spec):
         return canon[el]
 
     handed = []  # (element, object, snapshot)
+    kept_containers = []  # (request, masked array, its entries at hand-over, its mask at hand-over)
+    del CONTAINERS[:]
 
     def verify_handed(context):
         for el, obj, snap in handed:
             if snapshot(obj) != snap:
                 raise Violation(f"a value handed out earlier ({el}) was modified in place by {context}")
         counters["handed_out_rechecks"] += len(handed)
+        for rq, arr, entries, mask in kept_containers:
+            now = list(np.ma.getdata(arr).flat)
+            if len(now) != len(entries) or any(a is not b for a, b in zip(now, entries)) or not np.array_equal(np.ma.getmaskarray(arr), mask):
+                raise Violation(f"the array returned by the multi-entry request {rq} was rewritten by the later request {context}")
+        counters["kept_containers_rechecked"] += len(kept_containers)
+        while CONTAINERS:
+            arr = CONTAINERS.pop()
+            if isinstance(arr, np.ndarray):
+                kept_containers.append((context, arr, list(np.ma.getdata(arr).flat), np.ma.getmaskarray(arr).copy()))
 
     def do(outs, req, context):
         try:
@@ -327,7 +344,7 @@ def run_case(spec):
 def finalize(c, tier, evaluations, distinct):
     reasons = []
     need = dict(values_compared=3000, fresh_computations=3000, deletions=1000, histories_history=50, histories_interleaved=20,
-                histories_implicit=20, handed_out_rechecks=10000, input_snapshots_verified=100)
+                histories_implicit=20, handed_out_rechecks=10000, kept_containers_rechecked=1000, input_snapshots_verified=100)
     if tier == "thorough":
         need["ordered_pairs"] = 5000
     for k, v in need.items():
